@@ -255,3 +255,85 @@ func isEmptyConst(s Str) bool {
 	c, ok := s.Const()
 	return ok && c == ""
 }
+
+// ---------- bufio.Writer (buffered output) ----------
+//
+// Contract model: Write appends to the buffer and may, at any call, first spill the buffered
+// bytes to the underlying writer (the buffer became full - solver's choice, since lengths are
+// unbounded); Flush writes what is buffered. A failed spill / flush is remembered and returned by
+// every later Write / Flush (bufio's sticky error). Spills happen at Write boundaries (whole
+// Write payloads), which is coarser than the byte-exact spill of the real type.
+
+type bufWriter struct {
+	w   Iface
+	buf Str
+	err Iface
+}
+
+func init() {
+	extraHarness = append(extraHarness, func(e *Engine) {
+		in := e.intrinsics
+		mk := func(m *Machine, fr *frame, a []Value) Value {
+			w, ok := a[0].(Iface)
+			if !ok {
+				panic(abort("bufio.NewWriter on a non-interface writer"))
+			}
+			return &Opaque{kind: "bufio.Writer", data: &bufWriter{w: w}}
+		}
+		in["bufio.NewWriter"] = mk
+		in["bufio.NewWriterSize"] = mk
+		flush := func(m *Machine, fr *frame, bw *bufWriter) Iface {
+			if bw.err.t != nil {
+				return bw.err
+			}
+			if c, ok := bw.buf.Const(); ok && c == "" {
+				return Iface{}
+			}
+			data := bw.buf
+			bw.buf = Str{}
+			r := m.writeTo(fr, bw.w, data).(Tuple)
+			if errV := r[1].(Iface); errV.t != nil {
+				bw.err = errV
+				return errV
+			}
+			return Iface{}
+		}
+		write := func(m *Machine, fr *frame, a []Value) Value {
+			o, _ := a[0].(*Opaque)
+			if o == nil {
+				panic(targetPanic{runtime: "invalid memory address or nil pointer dereference (nil *bufio.Writer)"})
+			}
+			bw := o.data.(*bufWriter)
+			var s Str
+			switch x := a[1].(type) {
+			case Str:
+				s = x
+			case Slice:
+				s = m.bytesToStr(x).(Str)
+			}
+			if bw.err.t != nil {
+				return Tuple{Num{c: 0}, bw.err}
+			}
+			if c, ok := bw.buf.Const(); !(ok && c == "") {
+				// the buffer may be full: spill first (solver's choice)
+				if m.choose(2, nil) == 1 {
+					m.note("contract: a bufio.Writer may spill its buffer to the underlying writer at any Write")
+					if errV := flush(m, fr, bw); errV.t != nil {
+						return Tuple{Num{c: 0}, errV}
+					}
+				}
+			}
+			bw.buf = strConcat(bw.buf, s)
+			return Tuple{lenOfStr(s), Iface{}}
+		}
+		in["(*bufio.Writer).Write"] = write
+		in["(*bufio.Writer).WriteString"] = write
+		in["(*bufio.Writer).Flush"] = func(m *Machine, fr *frame, a []Value) Value {
+			o, _ := a[0].(*Opaque)
+			if o == nil {
+				panic(targetPanic{runtime: "invalid memory address or nil pointer dereference (nil *bufio.Writer)"})
+			}
+			return flush(m, fr, o.data.(*bufWriter))
+		}
+	})
+}
